@@ -447,6 +447,7 @@ fn main() {
         // ---- signature
         let mut sig = ff.sig.clone();
         sig.asyncness = None;
+        sig.constness = None;
         let rw = ty::TyRw { u: &u, in_unit_ty: false };
         rw.rewrite_generics(&mut sig.generics);
         let mut prologue: Vec<Stmt> = vec![];
